@@ -26,29 +26,49 @@ static MPT_STRUCT(node) *_clone_children(MPT_STRUCT(node) *to, const MPT_STRUCT(
 
 extern MPT_STRUCT(node) *mpt_list_clone(const MPT_STRUCT(node) *src)
 {
-	MPT_STRUCT(node) *first = 0, *last = 0;
+	MPT_STRUCT(node) *first = 0, *last = 0, *up = 0;
+	size_t depth = 0;
 	
-	for (; src; src = src->next) {
+	/* copy in pre-order, depth must not be limited by stack size */
+	while (src) {
 		MPT_STRUCT(node) *cpy;
 		
-		if ((cpy = mpt_node_clone(src))) {
-			if (!last) {
-				last = first = cpy;
-			} else {
-				last = mpt_gnode_after(last, cpy);
+		if (!(cpy = mpt_node_clone(src))) {
+			/* partial copy is reachable from top level list */
+			for (cpy = first; cpy; cpy = first) {
+				first = first->next;
+				mpt_node_unlink(cpy);
+				mpt_node_destroy(cpy);
 			}
-			/* require empty or cloned subtree */
-			if (!src->children
-			    || _clone_children(cpy, src->children)) {
-				continue;
-			}
+			return 0;
 		}
-		for (cpy = first; cpy; cpy = first) {
-			first = first->next;
-			mpt_node_unlink(cpy);
-			mpt_node_destroy(cpy);
+		if (last) {
+			mpt_gnode_after(last, cpy);
 		}
-		return 0;
+		else if (up) {
+			up->children = cpy;
+			cpy->parent = up;
+		}
+		else {
+			first = cpy;
+		}
+		/* subtree before successors */
+		if (src->children) {
+			src = src->children;
+			up = cpy;
+			last = 0;
+			++depth;
+			continue;
+		}
+		last = cpy;
+		/* end of list: back to nearest level with a successor */
+		while (!src->next && depth) {
+			src = src->parent;
+			last = last->parent;
+			up = last->parent;
+			--depth;
+		}
+		src = src->next;
 	}
 	return first;
 }
